@@ -83,4 +83,32 @@ def listSet {α : Type} (xs : List α) (i : Int) (v : α) : R (List α) :=
   let n : Int := xs.length
   let j := if i < 0 then n + i else i
   if 0 ≤ j ∧ j < n then .ok (xs.set j.toNat v) else raise .indexError
+
+/-- `f(*xs)` for a function of exactly `n` positional parameters: any other number of arguments is a `TypeError` -/
+def starArgs {α : Type} (n : Nat) (xs : List α) : R (List α) :=
+  if xs.length == n then .ok xs else raise .typeError
+
+/-- `re.sub(r'([ALPHABET])\1*', lambda m: next(items), s)` with `items = iter(list)`
+(`stdnum.de.stnr._Format.replace`): every maximal run of one repeated character of `alphabet` is replaced by the next
+element of the list, every other character is kept.  Running out of elements is `StopIteration`; an element that is
+`None` is a `TypeError` (re.sub expects a str from the callback) — both only when that element is actually needed.
+`skip` is the character of the run that is currently being replaced. -/
+def subRunsGo (alphabet : Str) : Option Nat → Str → List (Option Str) → R Str
+  | _, [], _ => .ok []
+  | skip, c :: rest, items =>
+    if skip == some c then subRunsGo alphabet skip rest items
+    else if alphabet.contains c then
+      match items with
+      | [] => raise .stopIteration
+      | none :: _ => raise .typeError
+      | some r :: items' =>
+        match subRunsGo alphabet (some c) rest items' with
+        | .ok tl => .ok (r ++ tl)
+        | .error e => .error e
+    else
+      match subRunsGo alphabet none rest items with
+      | .ok tl => .ok (c :: tl)
+      | .error e => .error e
+
+def subRunsNext (alphabet s : Str) (items : List (Option Str)) : R Str := subRunsGo alphabet none s items
 end Py
